@@ -338,6 +338,8 @@ def _judge(O, b, inst, cfg, res, flt, rec, what):
         return 'fault-not-reached'
     it = flt.hit[0][2] if flt.hit else None
     site = '%s@%s' % (flt.hit[0][0] if flt.hit else 'refusal', ent)
+    if kind == 'nl' and b['tag'].endswith('9.53674e-07'):
+        site += ':start-2^-20-from-boundary'       # the ill-conditioned start points are their own class of findings
     if isinstance(res, Exception):
         if isinstance(res, ValueError) and 'Rank' in str(res):
             if it is not None and it > 0:
